@@ -298,7 +298,9 @@ def path_write_scenarios():
              # array literals: items after a spread operand have no fixed index
              "[...h,x,c][1].d", "[...h,x.d,c][2]", "[x,...h,c][2]", "[...h,...h,x][2].d", "[...h,x][h.length].d", "[c,...h,x.d][2]", "[...h,,x.d][2]"]
     writes = [(("o", "a", "c"), 1), (("o", "a"), {"d": 2}), (("o", "b", "c"), 1), (("p", "a", "d"), 8), (("o", "a", "d"), 3), (("x", "d"), 2),
-              (("c",), 1), (("p", "b", "d"), 4), (("o", "a", "e", "f"), 1)]
+              (("c",), 1), (("p", "b", "d"), 4), (("o", "a", "e", "f"), 1),
+              # an operand replaced as a whole (its tree is `true`): every field it supplies may have changed
+              (("p",), {"a": {"d": 9, "c": 6}}), (("o",), {"a": {"d": 4}}), (("x",), {"d": 3, "c": 7}), (("h",), [{"d": 6}, {"d": 7}])]
     tdata = ["a:x,...o", "...o,a:x", "...p,...o", "a:x,...p,...o", "a:o.a", "a:c?x:o.a", "a:o.a||x"]
     out = []
     for e in exprs:
